@@ -214,7 +214,8 @@ def run(ck):
                   "multiclass": "multiclass MM : ", "defbody": "class Z { int f; }\ndef d2 : Base0, "}[kind]
         text = head + opener
         pos = len(text.encode())
-        text += "A" + (" { }" if kind == "multiclass" else ";")
+        # (the reference under the cursor may already have its argument list: the items are the same)
+        text += "A" + rng.choice(["", "", "<1>", "<1, \"x\">", "<>", "<p = 1>"]) + rng.choice(["", ", Base0"]) + (" { }" if kind == "multiclass" else ";")
         files = {"/main.td": text}
         if inc:
             # (parameter types must resolve where they are written: a parameter whose type names an unknown class is a fault, and
